@@ -54,7 +54,7 @@ class C08(Prop):
             pick = tabs if (n == 1 or thorough) else rng.sample(tabs, 2500)
             regions = [[]] + enum.subsets(n)
             for i, (m, r) in enumerate(pick):
-                for form in ("list", "tuple", "mask") + ((("unsorted", "ndarray", "repeat")[i % 3],) if n == 2 else ()):
+                for form in ("list", "tuple", "mask", "tmask") + ((("unsorted", "ndarray", "repeat")[i % 3],) if n == 2 else ()):
                     s = {"k": "entropy", "rows": ins_to_state(m), "r": r, "regions": regions, "form": form}
                     if n == 2 and i % 10:
                         s["pkg"] = "py"
@@ -66,6 +66,8 @@ class C08(Prop):
                 if i % 3:
                     s["pkg"] = "py"
                 yield s
+                if (i + r) % 2 == 0:
+                    yield dict(s, form="tmask", pkg="torch")
                 # the same regions named in other ways: indices in descending / shuffled order, as a numpy integer array,
                 # as a range, and with qubits named more than once (padded to length N: still the same set of qubits)
                 yield dict(s, form=("unsorted", "ndarray", "repeat", "range")[(i + r) % 4], pkg="py")
@@ -81,13 +83,13 @@ class C08(Prop):
                 a = rng.sample(range(nn - k + 1, nn + 1), rng.randrange(1, k + 1))
                 b = rng.sample(range(1, nn - k + 1), rng.randrange(0, 4)) + ([64, 65] if rng.random() < 0.5 else [])
                 regions.append(sorted(set(a + b)))
-            yield {"k": "entropy", "rows": rows, "r": r, "regions": regions, "form": ("list", "mask", "ndarray")[i % 3], "pkg": "py"}
+            yield {"k": "entropy", "rows": rows, "r": r, "regions": regions, "form": ("list", "mask", "ndarray")[i % 3]}
             # the same block next to a computational-basis state: pure for rs = 0 (the pure-state branch of the kernel on
             # a 132-column tableau); judged through the padding lemma
             signs = [rng.randrange(2) for _ in range(nn - k)]
             rows2, r2 = embed_tableau(ins_to_state(m), rs if i % 3 == 2 else 0, nn, signs)
             yield {"k": "wideentropy", "rows": rows2, "r": r2, "block": {"rows": ins_to_state(m), "r": r2}, "n": nn, "kk": k,
-                   "regions": regions, "form": ("list", "mask", "ndarray")[(i + 1) % 3], "pkg": "py"}
+                   "regions": regions, "form": ("list", "mask", "ndarray")[(i + 1) % 3]}
 
     def execute(self, scn, be):
         import numpy
@@ -125,6 +127,11 @@ class C08(Prop):
                         continue
                     vals.append(-99 if v is None else v)
                     continue
+                elif scn["form"] == "tmask":
+                    if be.name != "torch":
+                        regs.pop()
+                        continue
+                    arg = be.bvec([(j in z) for j in range(n)])        # a torch.bool mask
                 elif scn["form"] == "list":
                     arg = z
                 elif scn["form"] == "tuple":
